@@ -159,7 +159,10 @@ def _process_underscored_property(cls: Type, under_f: str, val: property,
             if isinstance(v, Field):
                 fval = _process_field(cls, annotations, public_f, v)[0]
             else:
-                fval.default = v
+                # a plain class-level value is the declared default: do not
+                # keep a `default_factory` derived from the annotated type
+                # (and do not mutate a Field found in `Annotated[...]`)
+                fval = dataclass_field(default=v)
 
     # Wraps the `setter` for the property
     val = val.setter(_wrapper(val.fset, fval))
